@@ -50,6 +50,9 @@ def injections(doc, ver):
         elif k == "reference" and d.get("generics") and isinstance(val, str):
             out.append({"path": list(p), "op": "set", "kind": "ref-to-unregistered-type", "value": "x-unregistered--" + UUID})
             out.append({"path": list(p), "op": "set", "kind": "ref-to-unregistered-type:no-x", "value": "some-new-type--" + UUID})
+            # names registered as marking types / extensions are not object types either
+            for other in ("tlp", "statement", "archive-ext", "ntfs-ext"):
+                out.append({"path": list(p), "op": "set", "kind": "ref-to-unregistered-type:marking-or-extension-name", "value": "%s--%s" % (other, UUID)})
             if ver == "2.0":
                 # a type that exists only in the other spec version is an unregistered (custom) type here
                 only21 = sorted(set(M.get("2.1").sdo_types) - set(M.get("2.0").sdo_types))
